@@ -18,7 +18,7 @@ RULE = ("nets from three sources: mlp = BaseMLPEA._defitne_net of the real MLPEA
         "float output exactly, for own weights, for weight batches of 1-4 rows, after shuffling the connection rows "
         "together with the weights; Python predicates: batch row r = single-row call, shuffled = original, repeated "
         "calls and copies give identical results, output = independent recursive evaluator. float regime (all "
-        "activation codes, softmax outputs, uniform weights): output = independent evaluator within 1e-9, softmax "
+        "activation codes, softmax outputs, uniform weights): output = independent evaluator within 1e-9 (relative to max(1,|value|)), softmax "
         "rows >= 0 and sum to 1. A case is distinct by (family, net, weights, variant).")
 ASSUMPTIONS = ["node ids are 0..N-1 and inputs are columns of X (the compiled code indexes a flat buffer without bounds checks)",
                "exact regime: activations ReLU/identity only; other activations are compared with Python math within 1e-9",
@@ -26,7 +26,7 @@ ASSUMPTIONS = ["node ids are 0..N-1 and inputs are columns of X (the compiled co
 TRUSTED = ["models: coq/theories/Net.v NetOrder.v NetForward.v; check functions coq/theories/C12Check.v (instance K=V=Qc)",
            "independent Python reference evaluator and predicates: harness/props/_netcommon.py"]
 THEORIES = ["Base", "Net", "NetAlgebra", "NetOrder", "NetForward", "NetProofs", "NetProofs2", "NetOrderProofs",
-            "NetForwardProofs", "NetForwardProofs2", "C12Check"]
+            "NetMLPProofs", "NetForwardProofs", "NetForwardProofs2", "C12Check", "NetForwardQc"]
 
 IMPORTS = "From TF Require Import Base Net NetAlgebra NetOrder NetForward C12Check."
 SIG_SOFTMAX = "softmax:per-schedule-group:outputs-with-different-source-sets"
@@ -104,6 +104,7 @@ def run(ctx, rep):
     rng = ctx.rng
     f_fw = C.CoqCases(ctx.scratch, "forward", IMPORTS, "chk_forward",
                       "net * list (list Q) * list (list Q) * list (list (list Q))", shard=150)
+    f_pr = C.CoqCases(ctx.scratch, "premises", IMPORTS, "chk_premises", "net", shard=400)
 
     def make_X(ncols, offset, exact, samples=3):
         X = np.array([[dyadic(rng) if exact else rng.uniform(-2, 2) for _ in range(ncols)] for _ in range(samples)])
@@ -119,6 +120,13 @@ def run(ctx, rep):
         elif len(net._weights) != nw:
             net._weights = np.array([rng.uniform(-2, 2) for _ in range(nw)])
         X = make_X(ncols, offset, exact)
+        if exact:
+            # keep the exact regime exact: deep nets may need more than 53 bits -> compare with tolerance instead
+            i0, _, _, c0, _, a0 = N.net_fields(net)
+            if not all(N.exact_float_ok(set(i0), c0, a0, xr, net._weights, limit=1 << 44) for xr in X):
+                exact = False
+                family = family + "-float"
+                rep.hist("exact_downgraded", family)
         case0 = dict(fn="Net.forward", family=family, desc=desc, net=N.net_json(net),
                      weights=[float(v) for v in net._weights], X=X.tolist(), exact=exact)
         key = (family, str(desc), exact)
@@ -126,9 +134,14 @@ def run(ctx, rep):
 
         def differs(a, b):
             a, b = np.asarray(a), np.asarray(b)
-            return a.shape != b.shape or not np.all(np.isfinite(a)) or bool(np.max(np.abs(a - b), initial=0.0) > tol)
+            if a.shape != b.shape or not np.all(np.isfinite(a)):
+                return True
+            return bool(np.max(np.abs(a - b) / np.maximum(1.0, np.abs(b)), initial=0.0) > tol)
 
         split = (not library_built) and softmax_sources_differ(net)
+        if not split:
+            # premises of C12_forward_is_ref (Layered, sm_same) in their Coq boolean form
+            f_pr.add(N.impl_net_term(net, sort_sets=False), case0)
 
         def problem(what, sig, impl, model, clause):
             rep.problem(family, what, case0, SIG_SOFTMAX if split else sig, True, impl, model, clause)
@@ -155,6 +168,11 @@ def run(ctx, rep):
         W = np.array([[dyadic(rng) if exact else rng.uniform(-2, 2) for _ in range(nw)] for _ in range(k)]).reshape(k, nw)
         if rng.random() < 0.5:
             W[rng.randrange(k)] = net._weights
+        if exact:
+            i0, _, _, c0, _, a0 = N.net_fields(net)
+            if not all(N.exact_float_ok(set(i0), c0, a0, xr, wr, limit=1 << 44) for xr in X for wr in W):
+                W = np.array(net._weights, dtype=np.float64).reshape(1, -1)
+                k = 1
         batch = net.forward(X, W)
         rep.count(family + ":batch", key + (k,))
         rep.hist("batch_rows", k)
@@ -249,7 +267,7 @@ def run(ctx, rep):
                         net = L["g2p"](N.tree_of_shape(sh, parts), nv, nout, "softmax", offset)
                         check_net(net, nv, offset, False, "tree-float", dict(tree=N.shape_str(sh), block=block,
                                                                              offset=offset, nout=nout), True)
-    for _ in range(ctx.pick(300, 2500)):
+    for _ in range(ctx.pick(300, 6000)):
         nv2 = rng.randint(2, 5)
         offset = rng.random() < 0.5
         block = rng.randint(1, 2)
@@ -270,7 +288,7 @@ def run(ctx, rep):
         n_trees += 1
 
     # ------------------------------------------------------------------ hand-built DAGs
-    for i in range(ctx.pick(500, 4000)):
+    for i in range(ctx.pick(500, 12000)):
         exact = rng.random() < 0.7
         net, ni = random_dag(rng, exact)
         check_net(net, ni, False, exact, "dag" if exact else "dag-float", dict(i=i), False)
@@ -320,6 +338,13 @@ def run(ctx, rep):
     for i in bad[:10]:
         rep.problem("forward", "Coq model (scheduled forward / ref_eval over Qc) and implementation disagree",
                     f_fw.meta[i], "forward:model-vs-impl", False, f_fw.meta[i].get("impl"), None)
+    bad, errors = f_pr.run()
+    rep.hist("coq_cases", "premises:" + str(len(f_pr)))
+    for e in errors:
+        rep.problem("premises", "model evaluation failed: %s" % (e,), {}, "model-eval", False)
+    for i in bad[:10]:
+        rep.problem("premises", "a net does not meet the premises Layered / sm_same of C12_forward_is_ref",
+                    f_pr.meta[i], "premises:not-layered", False)
     rep.exhaustive = True
     rep.exhaustive_note = (f"all trees with <= {ctx.pick(3, 5)} nodes (quick: plus a random fifth of the 5-node trees) over n_variables=3, "
                            "input_block_size {1,2}, offset on/off, hidden blocks of size 1,2 with drawn activation codes; "
